@@ -347,6 +347,9 @@ func c10Check(run *vk.Run, c c10Case, o c10Out) {
 				return
 			}
 		}
+		if len(got) > 64 {
+			viol("more-than-max-range-request-size", "%d OK responses for one request (MaxRangeRequestSize is 64)", len(got))
+		}
 		wantK := c.Amount
 		if c.Origin+c.Amount-1 > c.Head {
 			wantK = c.Head - c.Origin + 1
@@ -385,9 +388,10 @@ func TestC10(t *testing.T) {
 	}
 	dl := vk.NewDeadline(vk.Pick(run, 10*time.Minute, 100*time.Minute))
 	var cases []c10Case
-	stores := [][2]uint64{{5, 30}, {0, 0}, {1, 12}}
+	// one store holds more than MaxRangeRequestSize headers so that the 64-header cap is observable
+	stores := [][2]uint64{{5, 30}, {0, 0}, {1, 12}, {20, 150}}
 	if run.Thorough() {
-		stores = append(stores, [2]uint64{40, 200})
+		stores = append(stores, [2]uint64{40, 200}, [2]uint64{1, 70})
 	}
 	for _, sth := range stores {
 		tl, hd := sth[0], sth[1]
